@@ -4,6 +4,7 @@ package main
 
 import (
 	"encoding/json"
+	"os"
 	"strings"
 	"sync"
 	"time"
@@ -21,10 +22,15 @@ type exechistCall struct {
 	At  int `json:"at"`  // ms after the start of the history
 	Api int `json:"api"` // as in driver exec
 	T   int `json:"t"`   // api 0: timeout in ms
+	// what another process does to the executable (the file itself, i.e. the link target when the history runs
+	// through a symlink) before this call: "" nothing | "vanish" (renamed away) | "dir" (renamed away, a directory in
+	// its place) | "chmod000" | "dangling" (renamed away, a dangling symlink in its place) | "restore"
+	Before string `json:"before,omitempty"`
 }
 type exechistIn struct {
-	Base  execIn         `json:"base"` // the executable (kind, sleep, hold, output, ...)
-	Calls []exechistCall `json:"calls"`
+	Base    execIn         `json:"base"` // the executable (kind, sleep, hold, output, ...)
+	ViaLink bool           `json:"vialink,omitempty"` // the calls name a symlink to the executable
+	Calls   []exechistCall `json:"calls"`
 }
 type exechistObs struct {
 	Calls       []execObs `json:"calls"`
@@ -63,11 +69,59 @@ func exechistRun(pr execPrepared, in exechistIn) (exechistObs, string) {
 		}
 		return ""
 	}
+	// the file the mutations act on, the name the calls use, and what the model is told about the current state
+	file, okBeh := pr.path, pr.beh
+	away := file + ".away"
+	if in.ViaLink {
+		lnk := file + ".lnk"
+		os.Remove(lnk)
+		if err := os.Symlink(file, lnk); err != nil {
+			panic(err)
+		}
+		pr.path = lnk
+	}
+	clear := func() { // back to "nothing at the name"
+		if fi, err := os.Lstat(file); err == nil {
+			if fi.Mode().IsRegular() {
+				_ = os.Rename(file, away)
+			} else {
+				_ = os.Remove(file)
+			}
+		}
+	}
+	mutate := func(what string) {
+		switch what {
+		case "vanish":
+			clear()
+			pr.beh, pr.ck = okBeh, 1 // EvalSymlinks fails
+		case "dir":
+			clear()
+			_ = os.Mkdir(file, 0o755)
+			pr.beh, pr.ck = "(CannotStart SfIsDir)", 0
+		case "dangling":
+			clear()
+			_ = os.Symlink(file+".nowhere", file)
+			pr.beh, pr.ck = okBeh, 1
+		case "chmod000":
+			_ = os.Chmod(file, 0)
+			pr.beh, pr.ck = "(CannotStart SfNoExecBit)", 0
+		case "restore":
+			if _, err := os.Lstat(away); err == nil {
+				clear()
+				_ = os.Rename(away, file)
+			}
+			_ = os.Chmod(file, 0o755)
+			pr.beh, pr.ck = okBeh, 0
+		}
+	}
 	t0 := time.Now()
 	var terms []string
 	for _, c := range in.Calls {
 		if d := time.Duration(c.At)*time.Millisecond - time.Since(t0); d > 0 {
 			time.Sleep(d)
+		}
+		if c.Before != "" {
+			mutate(c.Before)
 		}
 		one := in.Base
 		one.Api, one.T = c.Api, c.T
@@ -93,6 +147,7 @@ func init() {
 			in   exechistIn
 			tags []string
 		}
+		execSetupNotifyEnv(ctx.WorkDir, ctx.Param("notify", 3000))
 		var jobs []job
 		for _, raw := range append(ctx.Corpus, ctx.Replay...) {
 			var in exechistIn
@@ -115,6 +170,31 @@ func init() {
 			// quick tier: ONE executable (the child itself sleeps past every deadline), about 11.5 s
 			jobs = append(jobs, job{exechistIn{Base: execIn{Kind: "sleepexec", Sleep: long, Out: execTxt("42\n")},
 				Calls: spread(0, []int{300, 250, 400, 200, 500}, quickOffs)}, []string{"persistent", "kind=sleepexec", "api=0"}})
+			// an executable that ran fine and then vanishes / is replaced / comes back, under one and the same name
+			// (direct and through a symlink): every call returns output or an error, never a panic
+			seqs := [][]string{
+				{"", "vanish", "", "restore", ""},
+				{"", "dir", "restore", "dangling", "", "restore"},
+				{"", "", "chmod000", "restore", "vanish", "dir", "dangling", "restore", ""},
+			}
+			for api := 0; api <= 4; api++ {
+				for _, via := range []bool{false, true} {
+					for si, seq := range seqs {
+						if ctx.Quick() && api > 0 && si != api%len(seqs) {
+							continue // quick: all sequences through SafeCmdExecution, one per wrapper
+						}
+						var cs []exechistCall
+						for i, b := range seq {
+							cs = append(cs, exechistCall{At: 40 * i, Api: api, T: 1000, Before: b})
+						}
+						tags := []string{"vanishing", "api=" + itoa(api)}
+						if via {
+							tags = append(tags, "via-symlink")
+						}
+						jobs = append(jobs, job{exechistIn{Base: execIn{Kind: "exit", Code: 0, Out: execTxt("42\n")}, ViaLink: via, Calls: cs}, tags})
+					}
+				}
+			}
 			if !ctx.Quick() {
 				longOffs := []int{0, 500, 1200, 2500, 4000, 6000, 8000, 9500, 10400, 11000, 14000, 19000, 20500, 21000, 24000}
 				jobs = append(jobs,
